@@ -180,6 +180,17 @@ func c38(c *an.Check) {
 			}
 		}
 		fns = append(fns, pt, pm, pv, p.Func("protocol", "ID", "String"))
+		// the PEM branch of the textual key parsers: pem.Decode's block may be nil
+		var kfns []*ssa.Function
+		for _, f := range p.PkgFuncs("keypem") {
+			if f.Parent() == nil {
+				kfns = append(kfns, f)
+			}
+		}
+		an.NilProducer = nilProducers
+		nK := c.NilDerefGuard("NILDEREF", "configuration parsers: pem.Decode's block and (value, error) results dereferenced only when known present", append(append([]*ssa.Function{}, fns...), kfns...), nilSafeRecv(p))
+		an.NilProducer = nil
+		c.Note("NILDEREF examined %d candidate calls in the configuration parsers and keypem", nK)
 		c.Totality(an.PanicSpec{Construct: "configuration parser totality", Funcs: fns, BCE: bce, Min: 18, Reviewed: map[string]string{}})
 		c.Note(fmt.Sprintf("totality scanned %d configuration parser functions", len(fns)))
 	}
